@@ -520,3 +520,136 @@ pub fn run_one(run: u64, seed: u64) -> RunOut {
     }
     out
 }
+
+/// Local port exhaustion: the client endpoint has all of its `max_ports` ports open, several `connect()` calls
+/// wait for a local port, some of the waiting calls are dropped, then ports are closed. Every freed port must
+/// resume one of the calls still waiting (each request resolves; none is left waiting while a port is free).
+pub fn run_exhaustion(run: u64, seed: u64) -> RunOut {
+    let mut rng = Rng::new(seed ^ 0xe4);
+    let mut cfg_a = small_cfg(&mut rng, None);
+    let mut cfg_b = small_cfg(&mut rng, None);
+    cfg_a.max_ports = *rng.pick(&[2u32, 3, 4]);
+    cfg_b.max_ports = 64;
+    cfg_a.connect_queue = 4;
+    cfg_b.connect_queue = 4;
+    cfg_a.receive_buffer = cfg_a.receive_buffer.max(16);
+    cfg_b.receive_buffer = cfg_b.receive_buffer.max(16);
+    let netcfg = draw_netcfg(&mut rng);
+    let h1 = *rng.pick(&[0u64, 10, 40]);
+    let n_wait = 2 + rng.usize_below(3);
+    let n_cancel = rng.usize_below(n_wait);
+    let cancel_newest_first = rng.chance(60);
+    let n_free = 1 + rng.usize_below(cfg_a.max_ports as usize - 1);
+    let replay = json!({"run": run, "seed": seed, "scenario": "local-port-exhaustion", "cfg_a": cfg_json(&cfg_a), "cfg_b": cfg_json(&cfg_b), "net": netcfg_class(&netcfg),
+        "h1_pct": h1, "waiting_connects": n_wait, "waiting_connects_dropped": n_cancel, "dropped_newest_first": cancel_newest_first, "ports_closed_afterwards": n_free});
+    let mut out = RunOut::default();
+    let panics0 = crate::mem::panic_count();
+    let prefix = crate::clock::thread_prefix();
+    install_h1(rng.fork(1), h1, 0);
+    let res: Result<(), String> = run_virtual(seed, async {
+        let Conn { net, a, b, sched: _s } = connect_pair(cfg_a.clone(), cfg_b.clone(), netcfg.clone(), &mut rng).await?;
+        // B accepts everything; each accepted pair is closed as soon as its peer has closed
+        let mut listener = b.listener;
+        let _ltask = crate::sched::spawn(async move {
+            while let Ok(Some((tx, mut rx))) = listener.accept().await {
+                crate::simnet::bump_progress();
+                crate::sched::spawn(async move {
+                    let _tx = tx;
+                    while let Ok(Some(_)) = rx.recv().await {}
+                    crate::simnet::bump_progress();
+                });
+            }
+        });
+        // use up every local port of A
+        let mut held = Vec::new();
+        for _ in 0..cfg_a.max_ports {
+            match or_quiescent(a.client.connect()).await {
+                Some(Ok(p)) => held.push(p),
+                other => return Err(format!("could not open the initial ports: {:?}", other.map(|r| r.map(|_| ()).map_err(|e| e.to_string())))),
+            }
+        }
+        if a.client.port_allocator().try_allocate().is_some() {
+            return Err("ports are not exhausted".into());
+        }
+        let done = Arc::new(Mutex::new(Vec::<(usize, String)>::new()));
+        let mut waiters = Vec::new();
+        for i in 0..n_wait {
+            let client = a.client.clone();
+            let done = done.clone();
+            waiters.push(Some(crate::sched::spawn(async move {
+                let r = client.connect().await;
+                done.lock().unwrap().push((i, format!("{:?}", r.as_ref().map(|_| ()).map_err(|e| e.to_string()))));
+                crate::simnet::bump_progress();
+                r
+            })));
+            settle().await;
+        }
+        if !done.lock().unwrap().is_empty() {
+            return Err("a connect completed although no local port was free".into());
+        }
+        // drop some of the waiting calls
+        let mut order: Vec<usize> = (0..n_wait).collect();
+        if cancel_newest_first {
+            order.reverse();
+        } else {
+            for i in (1..order.len()).rev() {
+                order.swap(i, rng.usize_below(i + 1));
+            }
+        }
+        for i in order.into_iter().take(n_cancel) {
+            if let Some(w) = waiters[i].take() {
+                w.abort();
+                let _ = w.await;
+            }
+        }
+        settle().await;
+        let live = waiters.iter().filter(|w| w.is_some()).count();
+        // close ports one at a time
+        let mut freed = 0usize;
+        for _ in 0..n_free {
+            if held.pop().is_some() {
+                freed += 1;
+            }
+            settle().await;
+        }
+        tokio::time::sleep(std::time::Duration::from_millis(5)).await;
+        settle().await;
+        let resolved = done.lock().unwrap().clone();
+        let expect = live.min(freed);
+        let still_free = a.client.port_allocator().try_allocate();
+        if resolved.len() < expect {
+            let mut rp = replay.clone();
+            rp["resolved"] = json!(resolved.iter().map(|r| format!("{r:?}")).collect::<Vec<_>>());
+            rp["trace_tail"] = net.trace_json(30);
+            out.viol(
+                "C10:waiting-connect-not-resumed",
+                format!("{live} connect() calls were waiting for a local port, {freed} port(s) were closed on both sides, but only {} call(s) resolved by quiescence (a free local port can be allocated right now: {})", resolved.len(), still_free.is_some()),
+                rp,
+            );
+        }
+        for (i, r) in &resolved {
+            if !r.starts_with("Ok") {
+                out.viol("C10:wrong-outcome", format!("waiting connect {i} failed with {r} on a healthy connection with an accepting listener"), replay.clone());
+            }
+        }
+        drop(still_free);
+        out.count("exhaustion_runs", 1);
+        out.count("waiting_connects", n_wait as u64);
+        out.count("waiting_connects_dropped", n_cancel as u64);
+        out.count("waiting_connects_resumed", resolved.len() as u64);
+        let mut h = Fnv::new();
+        h.add_str(&format!("exh{}{n_wait}{n_cancel}{cancel_newest_first}{n_free}{}", cfg_a.max_ports, net.signature()));
+        out.case_hash = Some(h.get());
+        wire_violations_to(&mut out, &net, "C10", &replay);
+        drop((held, waiters));
+        Ok(())
+    });
+    uninstall_h1();
+    if let Err(e) = res {
+        out.inconclusive = Some(e);
+    }
+    for p in crate::mem::panics_since(&prefix, panics0) {
+        out.viol("C10:panic", format!("panic at {}: {}", p.location, p.message), replay.clone());
+    }
+    out
+}
